@@ -18,6 +18,22 @@ Definition concat_src_ok (a : op) : bool :=
   | _ => true
   end.
 (* m = the dialect merges extends at SQL level (allow_extend_merges); a WINDOWED extend is covered when it does not *)
+(* the step generated for p may be one extend_to_near_sql merges into (an extend step, possibly narrowed by select_columns /
+   drop_columns above it) *)
+Fixpoint mergeable_src (p : op) : bool :=
+  match p with
+  | OExtend _ _ _ _ => true
+  | OSelectCols s _ | ODropCols s _ => mergeable_src s
+  | _ => false
+  end.
+(* ... and that step may carry window items *)
+Fixpoint win_top (p : op) : bool :=
+  match p with
+  | OExtend _ _ wd _ => wd
+  | OSelectCols s _ | ODropCols s _ => win_top s
+  | _ => false
+  end.
+
 Definition join_covered (d : dialect) (fl : flavor) (jt : jointype) : bool :=
   d_join_carry d && negb (f_join_null_match fl) &&
   match jt with JRight => negb (d_rewrite_right d) | JFull => negb (d_rewrite_full d) | _ => true end.
@@ -25,9 +41,10 @@ Definition join_covered (d : dialect) (fl : flavor) (jt : jointype) : bool :=
 Fixpoint stage1 (m : bool) (jok : jointype -> bool) (p : op) : bool :=
   match p with
   | OTable _ _ => true
-  | OExtend s _ wd w => stage1 m jok s && (if wd then negb m else window_is_empty w)
+  | OExtend s _ wd w => stage1 m jok s && (if wd then negb m || negb (mergeable_src s) else window_is_empty w && negb (m && win_top s))
   | OSelectRows s _ | OSelectCols s _ | ODropCols s _ | ORename s _ | OMapCols s _ _ | OOrder s _ _ _ => stage1 m jok s
-  | OConcat a b idc _ _ => stage1 m jok a && stage1 m jok b && match idc with Some _ => concat_src_ok a && concat_src_ok b | None => true end
+  | OConcat a b idc _ _ => stage1 m jok a && stage1 m jok b &&
+                           match idc with Some _ => concat_src_ok a && concat_src_ok b && negb (m && (win_top a || win_top b)) | None => true end
   | OProject s ops gb => stage1 m jok s && negb (is_nil gb && is_nil ops)       (* the builder: "project must have ops or group_by" *)
   | OJoin a b _ _ jt => stage1 m jok a && stage1 m jok b && jok jt
   end.
